@@ -44,8 +44,9 @@ class _:
         "incr == ite(old(offset) is None, 0, 1)"])}
 
 
-def simple(name, sig, requires, ensures, raises=None, loops=None):
+def simple(name, sig, requires, ensures, raises=None, loops=None, **extra):
     d = dict(sig=sig, props=["C04"], requires=requires, ensures={"func[C04]": ensures})
+    d.update(extra)
     if raises:
         d['raises'] = raises
     if loops:
@@ -74,3 +75,100 @@ simple("encode_api_versions_request", "(client_id: bytes, correlation_id: int, a
        CID + ["-32768 <= api_version_request.api_key and api_version_request.api_key <= 32767",
               "-32768 <= api_version_request.api_version and api_version_request.api_version <= 32767"],
        "result == req_header(api_version_request.api_key, api_version_request.api_version, correlation_id, client_id)")
+
+
+def _group_ret(eng, bound):
+    ety = bound['tuples'].ty[1]
+    return ('dict', ('str',), ('dict', ('int',), ety))
+
+
+@contract("afkak._util.group_by_topic_and_partition")
+class _:
+    sig = "(tuples: Any) -> Any"
+    props = ["C04"]
+    trusted = True        # assumed here; its own definitional spec is checked by the bounded stand-in (defaultdict not modelled)
+    dep_ret = staticmethod(_group_ret)
+    ensures = {"func": "result == grouped(tuples)"}
+
+
+ENC_ERR = {"struct.error": "True", "UnicodeEncodeError": "True", "TypeError": "True", "AttributeError": "True"}
+
+simple("encode_metadata_request", "(client_id: bytes, correlation_id: int, topics: List[str]) -> bytes",
+       CID + ["len(topics) <= 2147483647"],
+       "result == req_header(3, 0, correlation_id, client_id) + p_i32(len(topics)) + enc_strs_ascii(topics, len(topics))",
+       raises=ENC_ERR,
+       loops={"for#1": dict(index="i", inv=[
+           "join_bytes(message) == req_header(3, 0, correlation_id, client_id) + p_i32(len(topics)) + enc_strs_ascii(topics, i)"])})
+
+simple("encode_join_group_protocol_metadata", "(version: int, subscriptions: List[str], user_data: Optional[bytes]) -> bytes",
+       ["len(subscriptions) <= 2147483647", "-32768 <= version and version <= 32767", "user_data is None or len(user_data) <= 2147483647"],
+       "result == p_i16(version) + p_i32(len(subscriptions)) + enc_strs_utf8(subscriptions, len(subscriptions)) + enc_bytes32(user_data)",
+       raises=ENC_ERR,
+       loops={"for#1": dict(index="i", inv=[
+           "message == p_i16(version) + p_i32(len(subscriptions)) + enc_strs_utf8(subscriptions, i)"])})
+
+simple("encode_join_group_request", "(client_id: bytes, correlation_id: int, payload: _JoinGroupRequest) -> bytes",
+       CID + ["len(payload.group_protocols) <= 2147483647"],
+       "result == req_header(11, 0, correlation_id, client_id) + enc_str16_utf8(payload.group) + p_i32(payload.session_timeout) "
+       "+ enc_str16_utf8(payload.member_id) + enc_str16_utf8(payload.protocol_type) + p_i32(len(payload.group_protocols)) "
+       "+ enc_join_protocols(payload.group_protocols, len(payload.group_protocols))",
+       raises=ENC_ERR,
+       loops={"for#1": dict(index="i", inv=[
+           "message == req_header(11, 0, correlation_id, client_id) + enc_str16_utf8(payload.group) + p_i32(payload.session_timeout) "
+           "+ enc_str16_utf8(payload.member_id) + enc_str16_utf8(payload.protocol_type) + p_i32(len(payload.group_protocols)) "
+           "+ enc_join_protocols(payload.group_protocols, i)"])})
+
+simple("encode_sync_group_request", "(client_id: bytes, correlation_id: int, payload: _SyncGroupRequest) -> bytes",
+       CID + ["len(payload.group_assignment) <= 2147483647"],
+       "result == req_header(14, 0, correlation_id, client_id) + enc_str16_utf8(payload.group) + p_i32(payload.generation_id) "
+       "+ enc_str16_utf8(payload.member_id) + p_i32(len(payload.group_assignment)) "
+       "+ enc_sync_members(payload.group_assignment, len(payload.group_assignment))",
+       raises=ENC_ERR,
+       loops={"for#1": dict(index="i", inv=[
+           "message == req_header(14, 0, correlation_id, client_id) + enc_str16_utf8(payload.group) + p_i32(payload.generation_id) "
+           "+ enc_str16_utf8(payload.member_id) + p_i32(len(payload.group_assignment)) + enc_sync_members(payload.group_assignment, i)"])})
+
+
+def grouped_enc(name, sig, prefix_expr, pfx, requires=(), extra_sig_names=None):
+    """two-level [topic [partition ...]] request body over the grouped payloads"""
+    G = "grouped(payloads)"
+    simple(name, sig, CID + list(requires),
+           "result == %s + p_i32(len(%s)) + %s_topics(%s, len(%s))" % (prefix_expr, G, pfx, G, G),
+           raises=ENC_ERR,
+           loops={"for#1": dict(index="i", inv=[
+                      "message == %s + p_i32(len(%s)) + %s_topics(%s, i)" % (prefix_expr, G, pfx, G),
+                      "grouped_payloads == %s" % G]),
+                  "for#1/for#1": dict(index="j", inv=[
+                      "message == %s + p_i32(len(%s)) + %s_topics(%s, i) + enc_str16_ascii(dkey(%s, i)) + p_i32(len(dval(%s, i))) "
+                      "+ %s_parts(dval(%s, i), j)" % (prefix_expr, G, pfx, G, G, G, pfx, G),
+                      "grouped_payloads == %s" % G, "topic_payloads == dval(%s, i)" % G, "i < len(%s)" % G])})
+
+
+grouped_enc("encode_offset_commit_request",
+            "(client_id: bytes, correlation_id: int, group: Optional[str], group_generation_id: int, consumer_id: Optional[str], payloads: List[OffsetCommitRequest]) -> bytes",
+            "req_header(8, 1, correlation_id, client_id) + enc_str16_ascii(group) + p_i32(group_generation_id) + enc_str16_ascii(consumer_id)",
+            "ocq")
+from pyvc.contracts import CONTRACTS as _C
+_C[K + "encode_offset_commit_request"].raises["AssertionError"] = "iff:consumer_id is None"
+grouped_enc("encode_offset_fetch_request",
+            "(client_id: bytes, correlation_id: int, group: Optional[str], payloads: List[OffsetFetchRequest]) -> bytes",
+            "req_header(9, 1, correlation_id, client_id) + enc_str16_ascii(group)", "ofq")
+grouped_enc("encode_offset_request",
+            "(client_id: bytes, correlation_id: int, payloads: List[OffsetRequest]) -> bytes",
+            "req_header(2, 0, correlation_id, client_id) + p_i32(-1)", "oq")
+grouped_enc("encode_fetch_request",
+            "(client_id: bytes, correlation_id: int, payloads: List[FetchRequest], max_wait_time: int = 100, min_bytes: int = 4096, api_version: int = 0) -> bytes",
+            "req_header(1, ite(api_version >= 2, 2, api_version), correlation_id, client_id) + p_i32(-1) + p_i32(max_wait_time) + p_i32(min_bytes)",
+            "fq", requires=["-32768 <= api_version and api_version <= 32767"])
+
+
+# ---- bounded stand-ins (NOT proofs): the same contract evaluated natively on generated inputs ------------------
+simple("encode_produce_request",
+       "(client_id: bytes, correlation_id: int, payloads: List[ProduceRequest], acks: int = 1, timeout: int = 1000, api_version: int = 0) -> bytes",
+       CID + ["-32768 <= acks and acks <= 32767", "-2147483648 <= timeout and timeout <= 2147483647", "0 <= api_version and api_version <= 32767",
+              "all(m.magic == (1 if api_version >= 2 else 0) and (m.magic == 0 or m.timestamp is not None) and 0 <= m.attributes <= 255 for p in payloads for m in p.messages)"],
+       "result == req_header(0, produce_header_version(api_version), correlation_id, client_id) + p_i16(acks) + p_i32(timeout) "
+       "+ p_i32(len(grouped(payloads))) + pq_topics(grouped(payloads), len(grouped(payloads)))",
+       raises=ENC_ERR, bounded=dict(n=1500), search={"api_version": "choice:[0,1,2,3]", "payloads": "produce_payloads", "acks": "choice:[0,1,-1]"},
+       notes="nested universally quantified precondition (every message of every payload matches the request's message format) is outside "
+             "the quantifier-free contract language; checked as a bounded stand-in")
